@@ -888,7 +888,7 @@ def spp_post(c, p):
     return and_(*conj)
 
 
-Q(name="e2_set_peer_params", props=["C05", "C06", "C13", "C08"], func=r"connection/mod\.rs:\d+:1: \d+:16>::set_peer_params$",
+Q(name="e2_set_peer_params", props=["C05", "C06", "C13", "C08", "C03"], func=r"connection/mod\.rs:\d+:1: \d+:16>::set_peer_params$",
   pure=[r"negotiate_max_idle_timeout$", r"get_max_ack_delay$"], inline=[r"VarInt::into_inner$"], allowed_panics=r"expect",
   functions=["Connection::set_peer_params"], pre=lambda c: "true", post=spp_post,
   bounds="every received parameter set: all eleven integer parameters are stored unchanged, StreamsState::set_params gets the received set, MTU discovery is told min(max_udp_payload_size, 65535), the idle timeout is negotiated against the received max_idle_timeout; callees opaque (covered by streams / mtud / negotiate_idle obligations)",
